@@ -27,6 +27,9 @@ type finding struct {
 	Shape  string `json:"shape"`
 	Func   string `json:"func,omitempty"`
 	Detail string `json:"detail"`
+	// G2 locates a second-generation case (second history, crash point, image); not part
+	// of the signature
+	G2 string `json:"g2,omitempty"`
 }
 
 // evalCtx is what the oracle knows about the history at the crash point / corruption case.
@@ -44,6 +47,7 @@ type evalCtx struct {
 	noCont   bool
 	curCase  func(reader string) // announces the reader about to run (crash attribution)
 	shapeTag string
+	g2       *g2state // second generation enabled for this task (gen2.go)
 }
 
 func (c *evalCtx) class(s string) { c.classes[s]++ }
@@ -404,6 +408,13 @@ func (c *evalCtx) evalImage(files map[string][]byte) []finding {
 				} else {
 					announce("continue")
 					add(c.continueAfter(w, walDir, walpb.Snapshot{}, r, 0))
+					if c.g2 != nil && !c.corrupt {
+						announce("gen2")
+						for _, f := range c.gen2(files, walpb.Snapshot{}, r, "zero") {
+							f := f
+							add(&f)
+						}
+					}
 				}
 			}
 		}
@@ -472,6 +483,13 @@ func (c *evalCtx) evalImage(files map[string][]byte) []finding {
 					} else {
 						announce("continue(snap)")
 						add(c.continueAfter(w, walDir, ws, r, seg))
+						if c.g2 != nil && !c.corrupt {
+							announce("gen2(snap)")
+							for _, f := range c.gen2(files, ws, r, fmt.Sprintf("snapshot %d/t%d", ws.Index, ws.Term)) {
+								f := f
+								add(&f)
+							}
+						}
 					}
 				}
 			}
